@@ -465,6 +465,18 @@ func c06Facts(repo string, w io.Writer) (interface{}, error) {
 					sum.ReceiverWrites = append(sum.ReceiverWrites, fd.Name.Name+":"+ts)
 				}
 			}
+			// the receiver's statement handed to something that may write it: passed as a call argument,
+			// or the receiver of a method call (db.Statement.AddClause(..), m.ModifyStatement(db.Statement))
+			if c, ok := n.(*ast.CallExpr); ok {
+				for _, a := range c.Args {
+					if exprString(a) == rv+".Statement" {
+						sum.ReceiverWrites = append(sum.ReceiverWrites, fd.Name.Name+":arg:"+exprString(c.Fun))
+					}
+				}
+				if sel, ok := c.Fun.(*ast.SelectorExpr); ok && exprString(sel.X) == rv+".Statement" {
+					sum.ReceiverWrites = append(sum.ReceiverWrites, fd.Name.Name+":call:"+sel.Sel.Name)
+				}
+			}
 			return true
 		})
 	}
